@@ -474,6 +474,9 @@ pub fn check(spec: &'static CheckSpec, thorough: bool) -> i32 {
             if let Some(o) = v["foreign"].as_object() {
                 for (k, n) in o {
                     *foreign.entry(k.clone()).or_insert(0) += n.as_u64().unwrap_or(0);
+                    if std::env::var("VERIF_SHOW_FOREIGN").is_ok() {
+                        eprintln!("foreign {k} x{n} in run {} seed {}", v["i"], v["seed"]);
+                    }
                 }
             }
             let idx = v["i"].as_u64().unwrap_or(0);
